@@ -127,6 +127,7 @@ func Template(kind int, seed int64, cfg *Config) *Program {
 		top := &Pipeline{Name: "TOP", Ins: []Param{{Name: "v", Type: TInt}}, Outs: []Param{{Name: "y", Type: TInt}, {Name: "n", Type: TInt}},
 			Calls: []*Call{
 				{Callee: "CHK", Alias: "PRE_OUT", Preflight: true, Local: g.pct(50), Binds: []Binding{{Id: "v", Exp: self("v")}}},
+				{Callee: "CHK", Alias: "PRE_B", Preflight: true, Binds: []Binding{{Id: "v", Exp: lit(s1)}}},
 				{Callee: "NOP"},
 				{Callee: "GEN", Binds: []Binding{{Id: "seed", Exp: lit(s1)}}},
 				{Callee: "INNER", Binds: []Binding{{Id: "a", Exp: ref("GEN", "one")}}},
